@@ -11,16 +11,18 @@
   a PeerDown removes every entry of that peer.  `ribV m st key` is what `iter_reach` /
   `iter_reach_post` yield for that key.
 
-  Scope of the master theorem `C18_full_holds`: EVERY case of the case language — insert / remove /
+  Scope of the master theorem `C18_full_holds_partial`: every case of the case language without a
+  GR-retaining session end (see the theorem for the exact gap and finding S28h) — insert / remove /
   soft reset IN (from any thread) / import-policy change / session up with `register_peer` /
   non-retaining session down / GR-retaining session down / the bulk purges (`drop_stale_families`,
   `drop_families`, `mark_llgr_stale`, `drop_llgr_stale_families`; repaired: they withdraw what they
   remove, S28b) / subscribe / unsubscribe / a BMP connection (`BmpClient::serve`: drain to
   EndOfSnapshot, flush, forward) / an MRT updates dump (`MrtDumper`) / a gRPC `watch_event` stream.
   The consumer tasks are transition systems over the events they receive (`consStep` / `consRun`
-  in the model, `cvStep` per (map, key) in `Rbgp.Monitor.Consumer`).  A key the table holds as a
-  GR-retained (stale) route of an ended session is not judged (DESIGN §4.0: the subscriber was told
-  PeerDown for that session; retention is C10's subject); the route clauses of a BMP connection /
+  in the model, `cvStep` per (map, key) in `Rbgp.Monitor.Consumer`).  For a key the table holds as a
+  GR-retained (stale) route of an ended session a subscriber may hold nothing only if its own history
+  justifies it (the PeerDown of the key's peer was the last thing it was told about the key; DESIGN §4.0,
+  retention itself is C10's subject), otherwise it must hold what the table holds; the route clauses of a BMP connection /
   watch stream are judged (by the checker) only when every session announces routes between its up
   and its down (`sessionsOk`), the MRT clause only for peers that never end a session.
 
@@ -43,22 +45,59 @@ def shardsOk (c : Case) : Bool := c.threads.all fun t => t.2.all fun o => match 
     consumer tasks (BMP connection, MRT dump, watch stream) included. -/
 def C18_full : Prop := ∀ c : Case, shardsOk c = true → Spec.check c (observe c (run c)) = .ok
 
-/-- THE MASTER THEOREM: the full statement holds — any number of shards, sessions, channel
-    subscribers, BMP connections, MRT dumps and watch streams, ANY operations, ANY schedule string,
-    at either granularity: the reference checker written from the property text accepts the
-    observation of the model's run. -/
-theorem C18_full_holds : C18_full := by
-  intro c h
-  apply check_run_ok_full
+/-- THE MASTER THEOREM (partial since the checker was tightened, review r-7 item 2): every case in
+    which no session ends with GR retention (`noRetention`: no `gdown`) — any number of shards,
+    sessions, channel subscribers, BMP connections, MRT dumps and watch streams, any other
+    operations (non-retaining session ends, the purges, soft resets, policy changes), ANY schedule
+    string, at either granularity: the reference checker accepts the observation of the model's run.
+
+    What is missing for `C18_full`: cases with GR retention.  There the checker now accepts a
+    subscriber that holds nothing for a retained (stale) key only if its own history justifies it
+    (held = table, or the PeerDown of the key's peer was the last thing it was told about the key,
+    or - consumer connections - nothing about that peer was ever announced).  (a) For BMP connections
+    and watch streams the statement is FALSE (`C18_full_fails`, finding S28h).  (b) For channel
+    subscribers it is unproved: the invariant `viewI` gives away a retained key altogether
+    (`∨ staleKey`), the proof needs `view = ribV ∨ (view = none ∧ last item = PeerDown)` for it;
+    backed by the correspondence run and the oracle on the real events only. -/
+theorem C18_full_holds_partial (c : Case) (h : shardsOk c = true) (hnr : noRetention c = true) :
+    Spec.check c (observe c (run c)) = .ok := by
+  apply check_run_ok_full_partial _ _ hnr
   unfold shardsOk at h
   unfold caseOk
   rw [← h]
   congr 1
 
+/-- A connection opened while a peer's routes are GR-retained, the peer re-established afterwards:
+    the BMP station is told PeerUp but never the retained route the table still holds. -/
+def retainedLateWitness : Case :=
+  { n := 1, gran := 0, limit := 0
+    threads := [(true, [.up, .ins 0 0 0 5, .gdown, .up]), (false, [.bmp])]
+    sched := [0, 0, 0, 0, 0, 1, 1, 0, 0] }
+
+example : Spec.check retainedLateWitness (observe retainedLateWitness (run retainedLateWitness)) =
+    .fail 0 0 "purge-retained-bmp-pre-missing" := by decide
+
+/-- the full statement does not hold (finding S28h) -/
+theorem C18_full_fails : ¬ C18_full := by
+  intro h
+  have := h retainedLateWitness (by decide)
+  revert this
+  decide
+
+/-- the same moment for a channel subscriber: the retained route is in its snapshot -/
+def retainedLateChan : Case :=
+  { n := 1, gran := 0, limit := 0
+    threads := [(true, [.up, .ins 0 0 0 5, .gdown, .up]), (false, [.sub true])]
+    sched := [0, 0, 0, 0, 0, 1, 1, 0, 0] }
+
+example : (observe retainedLateChan (run retainedLateChan)).stale = [true] ∧
+    view false ⟨0, 0, 0, 0⟩ ((run retainedLateChan).queues 0) = some 10005 ∧
+    Spec.check retainedLateChan (observe retainedLateChan (run retainedLateChan)) = .ok := by decide
+
 /-- (the part proved first: every case without consumer tasks) -/
-theorem check_run_ok (c : Case) (hc : caseOk c = true) (hb : noBmp c = true) :
+theorem check_run_ok (c : Case) (hc : caseOk c = true) (hb : noBmp c = true) (hnr : noRetention c = true) :
     Spec.check c (observe c (run c)) = .ok :=
-  check_run_ok_of_noBmp c hc hb
+  check_run_ok_of_noBmp c hc hb (no_stale hnr (run_reach c))
 
 /-- The case that refuted the property before the purges were repaired (S28b): a session ends with
     GR negotiated (PeerDown is sent, the routes are retained as stale), a subscriber then subscribes
@@ -70,6 +109,8 @@ def purgeWitness : Case :=
     sched := [0, 0, 0, 0, 0, 1, 1] }
 
 example : caseOk purgeWitness = true ∧ noBmp purgeWitness = true := by decide
+
+example : Spec.check purgeWitness (observe purgeWitness (run purgeWitness)) = .ok := by decide
 
 example : histPre ⟨0, 0, 0, 0⟩ ((run purgeWitness).queues 0) = [.val 10005, .wd] ∧
     (run purgeWitness).rib ⟨0, 0, 0, 0⟩ = none := by decide
@@ -318,7 +359,8 @@ example : (drainSnapshot [.pre ⟨0, 0, 0, 0⟩ (some 7), .down 0, .up 0, .eos] 
 
 end Rbgp.Monitor.Props
 
-#print axioms Rbgp.Monitor.Props.C18_full_holds
+#print axioms Rbgp.Monitor.Props.C18_full_holds_partial
+#print axioms Rbgp.Monitor.Props.C18_full_fails
 #print axioms Rbgp.Monitor.Props.check_run_ok
 #print axioms Rbgp.Monitor.Props.bmp_peerdown_after_peerup
 #print axioms Rbgp.Monitor.Props.watch_peerdown_after_peerup
